@@ -253,20 +253,39 @@ def r3_permutation(ctx) -> None:
 def r4_sign_flip(ctx) -> None:
   ci = ctx.index.need_class('vizier._src.benchmarks.experimenters.sign_flip_experimenter.SignFlipExperimenter')
   ps = ci.methods['problem_statement']
-  t = unparse(ps.node, 0)
-  swap = 'is_maximize' in t and 'is_minimize' in t and t.index('ObjectiveMetricGoal.MINIMIZE') > t.index('is_maximize') \
-      and 'ObjectiveMetricGoal.MAXIMIZE' in t
-  arms = {}
-  for n in ast.walk(ps.node):
-    if isinstance(n, ast.If):
-      cond = unparse(n.test, 0)
-      body = unparse(ast.Module(body=n.body, type_ignores=[]), 0)
-      if 'is_maximize' in cond:
-        arms['max'] = 'MINIMIZE' in body
-      if 'is_minimize' in cond:
-        arms['min'] = 'MAXIMIZE' in body
-  ctx.check(swap and arms.get('max') and arms.get('min'), 'R4', 'goals swapped in both directions', ps.node,
-            'MAXIMIZE -> MINIMIZE and MINIMIZE -> MAXIMIZE', 'one goal direction is not swapped: flipping twice is not the identity',
+  # member-wise: with the metric's goal bound to MAXIMIZE / MINIMIZE, which goal does the loop body store?
+  from vzstatic import enumeval
+  stores = [x for x in ast.walk(ps.node) if isinstance(x, ast.Assign) and any(isinstance(t_, ast.Attribute) and t_.attr == 'goal' for t_ in x.targets)]
+  if not stores:
+    raise AnalysisError('SignFlipExperimenter.problem_statement: no store into <metric>.goal')
+  var = unparse(next(t_ for t_ in stores[0].targets if isinstance(t_, ast.Attribute)).value, 0)
+  loop = next((a for a in ancestors(stores[0]) if isinstance(a, ast.For)), None)
+  body = loop.body if loop is not None else ps.node.body
+  tables = dict(ps.module.assigns)
+  flipped = {}
+  for member, other in (('MAXIMIZE', 'MINIMIZE'), ('MINIMIZE', 'MAXIMIZE')):
+    binding = {f'{var}.goal': member, f'{var}.goal.is_maximize': member == 'MAXIMIZE', f'{var}.goal.is_minimize': member == 'MINIMIZE'}
+
+    def tev(t_, binding=binding):
+      # membership in a module-level table: decided on the table's keys
+      if isinstance(t_, ast.Compare) and len(t_.ops) == 1 and isinstance(t_.ops[0], (ast.In, ast.NotIn)) \
+          and isinstance(t_.comparators[0], ast.Name) and isinstance(tables.get(t_.comparators[0].id), ast.Dict):
+        keys = ast.Tuple(elts=list(tables[t_.comparators[0].id].keys), ctx=ast.Load())
+        t_ = ast.Compare(left=t_.left, ops=t_.ops, comparators=[keys])
+      v_ = enumeval.eval_test(t_, binding)
+      if v_ is None and not any(var in unparse(x_, 0) for x_ in ast.walk(t_) if isinstance(x_, (ast.Attribute, ast.Name))):
+        return True  # a test that does not look at the metric (e.g. "flip this metric?") : the flipping case
+      return v_
+    tr = enumeval.trace(body, tev)
+    got = None
+    for st_ in (tr or []):
+      if isinstance(st_, ast.Assign) and any(isinstance(t_, ast.Attribute) and t_.attr == 'goal' and unparse(t_.value, 0) == var for t_ in st_.targets):
+        got = enumeval.value_of(st_.value, binding, tables)
+    flipped[member] = got
+  swap_ok = flipped == {'MAXIMIZE': 'MINIMIZE', 'MINIMIZE': 'MAXIMIZE'}
+  ctx.check(swap_ok, 'R4', 'goals swapped in both directions', ps.node,
+            'MAXIMIZE -> MINIMIZE and MINIMIZE -> MAXIMIZE',
+            f'member-wise the stored goal is {flipped}: one goal direction is not swapped, flipping twice is not the identity',
             construct='goal-swap', func=ps.qualname)
   ev = ci.methods['evaluate']
   muls = [x for x in ast.walk(ev.node) if isinstance(x, ast.BinOp) and isinstance(x.op, ast.Mult)]
